@@ -1,10 +1,10 @@
 (* C02 + C04 composed: parsing what the writer wrote gives the tree back.
-   For trees of null, booleans, integers (below the scan-ahead threshold), strings that are valid
-   UTF-8, arrays and objects (distinct names, nothing omitted): oj.Parser / gen.Parser on the
+   For trees of null, booleans, integers (below the scan-ahead threshold), floats whose text is a
+   plain decimal, strings that are valid UTF-8, arrays and objects (distinct names, nothing omitted): oj.Parser / gen.Parser on the
    writer's output deliver exactly the written tree, for every option set and WriteLimit. *)
 From Coq Require Import Init.Byte NArith ZArith List Bool Lia.
 Require Import Ojg.Base.Bytes Ojg.Base.Jv Ojg.Json.Number Ojg.Json.NumberFacts Ojg.Json.Machine Ojg.Json.Ref Ojg.Json.RefParse Ojg.Json.Sweep Ojg.Json.DataInv Ojg.Json.Frontends.
-Require Import Ojg.Json.ValueSim Ojg.Json.IntLit Ojg.Json.Fmt Ojg.Json.Literals Ojg.Json.Writer Ojg.Json.WriterFacts Ojg.Json.WRound Ojg.Json.WInt Ojg.Json.WFinal Ojg.Json.WExpected.
+Require Import Ojg.Json.ValueSim Ojg.Json.IntLit Ojg.Json.Fmt Ojg.Json.Literals Ojg.Json.Writer Ojg.Json.WriterFacts Ojg.Json.WRound Ojg.Json.WInt Ojg.Json.WFinal Ojg.Json.WExpected Ojg.Json.DecShape.
 Import ListNotations.
 Open Scope Z_scope.
 
@@ -16,7 +16,8 @@ Section PW.
     match v with
     | JInt z => - max_int64 <= z < 9223372036854775800
     | JStr s => sanitize s = s
-    | JFloat _ | JBig _ => False
+    | JFloat t => dec_shape t
+    | JBig _ => False
     | JArr l => (fix go (l : list jv) : Prop := match l with [] => True | x :: l' => clean x /\ go l' end) l
     | JObj m => NoDup (map fst m) /\
                 (fix go (m : list (bytes * jv)) : Prop :=
@@ -55,7 +56,7 @@ Section PW.
   Proof.
     induction v using jv_ind2; intro HC; try reflexivity.
     - simpl in HC. apply tr_int. exact HC.
-    - simpl in HC. contradiction.
+    - simpl in HC. apply (dec_shape_leaf K). exact HC.
     - simpl in HC. contradiction.
     - simpl in *. rewrite HC. reflexivity.
     - simpl. f_equal. simpl in HC.
@@ -75,6 +76,7 @@ Section PW.
   Lemma clean_numtexts v : clean v -> numtexts_ok v = true.
   Proof.
     induction v using jv_ind2; simpl; intro HC; try reflexivity; try contradiction.
+    - apply dec_shape_num_ok. exact HC.
     - rewrite forallb_forall. rewrite Forall_forall in H. intros x Hin.
       induction l as [|y l IHl]; [contradiction Hin|]. destruct HC as [Hy Hl]. destruct Hin as [->|Hin].
       + apply H; [left; reflexivity | exact Hy].
